@@ -2,8 +2,10 @@ package main
 
 // Generators of the Joe families.  A scenario is built from one of a few templates (each the
 // boundary class of one of the properties: topic shapes, failure x cancellation, shutdown
-// races, cancellation instants, replayer faults, resuming with Last-Event-ID) filled in
-// randomly, plus a fully random mix.  All randomness comes from c.R.
+// races, cancellation instants, replayer faults and sequential fault histories, message shapes,
+// resuming with Last-Event-ID, resuming after expiry and the application's own GC()) filled in
+// randomly, plus a fully random mix.  In every class some messages carry no data (sprinkleBlank).
+// All randomness comes from c.R.
 
 import (
 	"strconv"
@@ -191,12 +193,50 @@ func (g *jgen) countScenario(fam, class string, s *jScenario) {
 			seen["replay-errors"] = true
 		}
 	}
+	for _, t := range s.pubs {
+		for _, m := range t.msgs {
+			if m.shape != 0 {
+				seen["message-without-data"] = true
+				if !m.idopt.Present() {
+					seen["message-without-any-field"] = true
+					if s.kind != 0 && s.auto != 0 {
+						seen["message-without-any-field+id-assigning-replayer"] = true
+					}
+				}
+			}
+		}
+	}
 	for k := range seen {
 		c.Count("has:" + k)
 	}
 }
 
+// sprinkleBlank: in one scenario of four some published messages carry no data (nothing at all unless the
+// scenario gave them an ID).  What Joe owes a message does not depend on its content.
+func (g *jgen) sprinkleBlank(s *jScenario) {
+	if jToks(s) == 0 || !g.r.Chance(1, 4) {
+		return
+	}
+	n := 0
+	for t := range s.pubs {
+		for k := range s.pubs[t].msgs {
+			if g.r.Chance(1, 3) {
+				s.pubs[t].msgs[k].shape = 1
+				n++
+			}
+		}
+	}
+	if n == 0 {
+		t := g.r.Intn(len(s.pubs))
+		for len(s.pubs[t].msgs) == 0 {
+			t = (t + 1) % len(s.pubs)
+		}
+		s.pubs[t].msgs[g.r.Intn(len(s.pubs[t].msgs))].shape = 1
+	}
+}
+
 func (g *jgen) emit(fam, class string, s *jScenario) {
+	g.sprinkleBlank(s)
 	g.countScenario(fam, class, s)
 	g.c.Emit(val.L(s.enc()))
 }
@@ -703,6 +743,167 @@ func (g *jgen) tplRepFault(maxSubs int) (*jScenario, string) {
 	return s, name
 }
 
+// ---- (e') replayer fault HISTORIES: strictly sequential Subscribe / Publish steps ---------------------
+//
+// Two faults of the replayer one after the other - every ordered pair of {Replay error, Replay panic, Put error,
+// Put panic} (n walks through the 16 pairs) - then new subscribers and publishes.  Every step starts when the loop
+// is through with the previous one, so the k-th Replay / Put call of the wrapper is the k-th step of its kind and
+// what the loop remembers from one call is there when the next one is handled.
+
+type jSeqStep struct {
+	sub     bool
+	verdict uint64
+}
+
+func (g *jgen) tplFaultSeq(n, maxSubs int) (*jScenario, string) {
+	s := g.base()
+	topic := uint64(g.r.Intn(3))
+	names := []string{"replay-error", "replay-panic", "put-error", "put-panic"}
+	f1, f2 := n%4, (n/4)%4
+	fault := func(f int) jSeqStep {
+		v := uint64(98)
+		if f%2 == 0 {
+			v = 100 + uint64(g.r.Intn(5))
+		}
+		return jSeqStep{sub: f < 2, verdict: v}
+	}
+	steps := []jSeqStep{}
+	if g.r.Chance(1, 3) {
+		steps = append(steps, jSeqStep{sub: g.r.Bool()})
+	}
+	steps = append(steps, fault(f1))
+	if g.r.Chance(1, 4) {
+		steps = append(steps, jSeqStep{sub: g.r.Bool()})
+	}
+	steps = append(steps, fault(f2))
+	// afterwards: somebody new subscribes, something is published, then a few more of both
+	steps = append(steps, jSeqStep{sub: true}, jSeqStep{})
+	for k, m := 0, g.r.Intn(3); k < m; k++ {
+		st := jSeqStep{sub: g.r.Bool()}
+		if g.r.Chance(1, 5) {
+			st.verdict = 100 + uint64(g.r.Intn(5)) // matters only while the replayer is still in use
+		}
+		steps = append(steps, st)
+	}
+	if steps[len(steps)-1].sub {
+		steps = append(steps, jSeqStep{})
+	}
+	// bystanders registered from the start
+	nby := g.r.Intn(2)
+	if maxSubs > 4 {
+		nby = g.r.Intn(3)
+	}
+	g.plainSubs(s, nby, topic)
+	s.repScript = jZeros(nby)
+	if nby > 0 && g.r.Chance(1, 4) {
+		s.subs[0].script = append(jZeros(g.r.Intn(4)), 100+uint64(g.r.Intn(5)))
+		s.subs[0].selfCancel = g.r.Bool()
+	}
+	var prev jCond
+	if nby > 0 {
+		prev = jEvN(34, jAny, uint64(nby))
+	}
+	pt := jPubSpec{}
+	for _, st := range steps {
+		if st.sub {
+			i := uint64(len(s.subs))
+			x := jSubSpec{topics: []uint64{topic}, start: prev}
+			if g.r.Chance(1, 5) {
+				x.topics = []uint64{topic + 1, topic}
+			}
+			s.subs = append(s.subs, x)
+			s.repScript = append(s.repScript, st.verdict)
+			prev = jEv(31, i) // the loop took the subscription: it is through with it before it takes anything else
+		} else {
+			p := uint64(len(pt.msgs))
+			pt.msgs = append(pt.msgs, jMsgSpec{topics: []uint64{topic}, pre: prev})
+			s.putScript = append(s.putScript, st.verdict)
+			prev = jEv(15, p)
+		}
+	}
+	s.pubs = append(s.pubs, pt)
+	s.shuts = []jShutSpec{jFinalShut()}
+	return s, names[f1] + "+" + names[f2]
+}
+
+// ---- (e'') message shapes: messages without data through every kind of replayer --------------------------
+//
+// The wrapper alone, or a real FiniteReplayer / ValidReplayer behind it, assigning IDs or not: the message
+// that is fanned out is the caller's own or the copy Put returned (for &sse.Message{} and an ID-assigning
+// replayer: a message that consists of the assigned ID only).  Late subscribers get the stored copies replayed.
+
+func (g *jgen) tplShapes(maxSubs int) (*jScenario, string) {
+	s := g.base()
+	topic := uint64(g.r.Intn(3))
+	rk := g.r.Intn(5)
+	name := []string{"no-replayer", "finite/auto", "valid/auto", "finite/manual", "valid/manual"}[rk]
+	auto := rk == 1 || rk == 2
+	switch rk {
+	case 1, 3:
+		s.kind, s.cap = 1, uint64(2+g.r.Intn(4))
+	case 2, 4:
+		s.kind = 2
+	}
+	if auto {
+		s.auto = 1
+	}
+	nsubs := 1 + g.r.Intn(maxSubs)
+	g.plainSubs(s, nsubs, topic)
+	var start jCond
+	if g.r.Chance(3, 4) {
+		start = jEvN(34, jAny, uint64(nsubs))
+	}
+	nblank := 0
+	for t, nt := 0, 1+g.r.Intn(2); t < nt; t++ {
+		pt := jPubSpec{start: start}
+		first := jToks(s)
+		for k, m := 0, 2+g.r.Intn(3); k < m; k++ {
+			ms := jMsgSpec{topics: []uint64{topic}}
+			if g.r.Chance(1, 5) {
+				ms.topics = []uint64{topic, topic + 1}
+			}
+			if g.r.Bool() {
+				ms.shape = 1
+				nblank++
+			}
+			// manual IDs: nearly every message has one (one without is refused by Put and still delivered);
+			// automatic IDs / no replayer: nearly none has
+			if (rk >= 3) != g.r.Chance(1, 8) {
+				ms.idopt = jID("m" + strconv.Itoa(first+k))
+			}
+			pt.msgs = append(pt.msgs, ms)
+		}
+		s.pubs = append(s.pubs, pt)
+	}
+	if nblank == 0 {
+		s.pubs[0].msgs[g.r.Intn(len(s.pubs[0].msgs))].shape = 1
+	}
+	ntok := jToks(s)
+	if g.r.Bool() {
+		// somebody subscribes later and has the stored copies replayed
+		x := jSubSpec{topics: []uint64{topic}, start: jEv(15, uint64(g.r.Intn(ntok)))}
+		switch {
+		case rk == 0 || g.r.Chance(1, 4):
+		case auto:
+			x.idopt = jID(strconv.Itoa(g.r.Intn(ntok)))
+		default:
+			x.idopt = jID("m" + strconv.Itoa(g.r.Intn(ntok)))
+		}
+		s.subs = append(s.subs, x)
+	}
+	if g.r.Chance(1, 5) {
+		v := g.r.Intn(len(s.subs))
+		s.subs[v].script = append(jZeros(g.r.Intn(5)), 100+uint64(g.r.Intn(5)))
+		s.subs[v].selfCancel = g.r.Bool()
+	}
+	if g.r.Chance(1, 6) {
+		v := g.r.Intn(len(s.subs))
+		s.subs[v].hasCancel, s.subs[v].cancel = true, jEvN(38, uint64(v), uint64(1+g.r.Intn(2)))
+	}
+	s.shuts = []jShutSpec{jFinalShut()}
+	return s, name
+}
+
 // ---- random mix -------------------------------------------------------------------------------------
 
 func (g *jgen) randCondSub(i uint64, ntok, nsubs int) jCond {
@@ -811,9 +1012,9 @@ func (g *jgen) tplRandom(maxSubs int) *jScenario {
 
 func genJoe(c *Ctx) {
 	g := &jgen{c: c, r: c.R}
-	mult, maxSubs := 2, 4 // quick: 740 scenarios, about 6 s
+	mult, maxSubs := 2, 4 // quick: 896 scenarios, about 6 s
 	if c.Thorough {
-		mult, maxSubs = 20, 8 // thorough: 7400 scenarios, about 80 s
+		mult, maxSubs = 20, 8 // thorough: 8960 scenarios, about 100 s
 	}
 	for n := 0; n < 60*mult; n++ {
 		g.emit("joe", "topics", g.tplTopics(maxSubs))
@@ -835,19 +1036,116 @@ func genJoe(c *Ctx) {
 	for n := 0; n < 60*mult; n++ {
 		g.emit("joe", "random", g.tplRandom(maxSubs))
 	}
+	for n := 0; n < 48*mult; n++ {
+		s, name := g.tplFaultSeq(n, maxSubs)
+		g.emit("joe", "replayer-fault-history/"+name, s)
+	}
+	for n := 0; n < 30*mult; n++ {
+		s, name := g.tplShapes(maxSubs)
+		g.emit("joe", "message-shapes/"+name, s)
+	}
 }
 
 // ---- (f) resuming with Last-Event-ID against the real replayers -----------------------------------
 
-func (g *jgen) tplResume(maxSubs int) (*jScenario, string, string) {
+// jRing is the size of a ValidReplayer's ring after n Puts without any expiry (4, doubled whenever full).
+func jRing(n int) int {
+	r := 4
+	for r < n {
+		r *= 2
+	}
+	return r
+}
+
+// expiry chooses, for replayer kind 3, how many stored events expire (m), how many survive (k), whether the
+// application's own GC() follows the second clock jump at once, and how many more events are stored before the
+// resuming Subscribe (extra).  With m+k Puts the ring has jRing(m+k) slots; what a collection does next depends on
+// k against a fraction of that (shrink at len/4; len/2 = the survivors fill the next smaller ring exactly), so
+// these are the boundary classes.  grid >= 0: the directed grid ring {8,16} x survivors {len/2, len/4, other}.
+func (g *jgen) expiry(grid int) (m, k, extra int, gc bool) {
+	inRing := func(ring, k int) int { // m with jRing(m+k) == ring, 1 <= m <= 8
+		lo, hi := ring/2+1-k, ring-k
+		if lo < 1 {
+			lo = 1
+		}
+		if hi > 8 {
+			hi = 8
+		}
+		if hi < lo {
+			return 1 + g.r.Intn(8)
+		}
+		return lo + g.r.Intn(hi-lo+1)
+	}
+	class := ""
+	switch {
+	case grid >= 0:
+		ring := []int{8, 16}[grid%2]
+		gc = true
+		switch (grid / 2) % 3 {
+		case 0:
+			k = ring / 2
+		case 1:
+			k = ring / 4
+		default:
+			k = 1 + g.r.Intn(8)
+		}
+		m = inRing(ring, k)
+		if g.r.Chance(1, 4) {
+			extra = 1 + g.r.Intn(2)
+		}
+	case g.r.Bool():
+		// a small history: the head moves, no shrink, later Puts wrap a ring that is not full
+		m, k = 1+g.r.Intn(2), 2+g.r.Intn(2)
+		gc = g.r.Chance(1, 4)
+		extra = 1 + g.r.Intn(5)
+	default:
+		ring := []int{8, 8, 16}[g.r.Intn(3)]
+		k = rng.Pick(g.r, []int{ring / 2, ring / 4, 1 + g.r.Intn(8)})
+		m = inRing(ring, k)
+		gc = g.r.Bool()
+		extra = rng.Pick(g.r, []int{0, 1, 1, 2, 5})
+	}
+	if !gc && extra == 0 {
+		extra = 1 // without GC() the next Put is what collects the expired events
+	}
+	switch ring := jRing(m + k); {
+	case 2*k == ring:
+		class = "len/2"
+	case 4*k == ring:
+		class = "len/4"
+	case 4*k < ring:
+		class = "<len/4"
+	case 2*k < ring:
+		class = "len/4..len/2"
+	default:
+		class = ">len/2"
+	}
+	how := "next-put"
+	if gc {
+		how = "explicit-GC"
+	}
+	g.c.Count("replay:expiring:survivors:" + class + "/ring" + strconv.Itoa(jRing(m+k)) + "/" + how)
+	g.c.Count("replay:expiring:puts-after-expiry:" + strconv.Itoa(extra))
+	return m, k, extra, gc
+}
+
+// tplResume: grid < 0 the random template; grid >= 0 the n-th scenario of the directed grid "events expire, the
+// application calls GC(), somebody resumes" (replayer kind 3; see expiry).
+func (g *jgen) tplResume(maxSubs, grid int) (*jScenario, string, string) {
 	s := g.base()
-	s.kind = uint64(1 + g.r.Intn(3)) // 1 FiniteReplayer(cap), 2 ValidReplayer, 3 ValidReplayer whose first cap accepted events expire
-	capEff := 4                      // ValidReplayer: the initial ring
+	s.kind = uint64(1 + g.r.Intn(3)) // 1 FiniteReplayer(cap), 2 ValidReplayer, 3 ValidReplayer whose first m accepted events expire
+	if grid >= 0 {
+		s.kind = 3
+	}
+	capEff := 4 // ValidReplayer: the initial ring
 	if s.kind == 1 {
 		s.cap = uint64(2 + g.r.Intn(4))
 		capEff = int(s.cap)
 	}
 	auto := g.r.Bool()
+	if grid >= 0 {
+		auto = (grid/6)%2 == 1
+	}
 	if auto {
 		s.auto = 1
 	}
@@ -875,6 +1173,24 @@ func (g *jgen) tplResume(maxSubs int) (*jScenario, string, string) {
 		nb = capEff + 1
 	case ">cap":
 		nb = capEff + 2 + g.r.Intn(capEff)
+	}
+	expM, expK, quietResume := 0, 0, false
+	if s.kind == 3 {
+		m, k, extra, gc := g.expiry(grid)
+		expM, expK = m, k
+		nb, nbClass, forced = m+k+extra, "m+k+"+strconv.Itoa(extra), ""
+		if gc {
+			s.gc = 1
+		}
+		switch {
+		case grid >= 0:
+			forced = []string{"newest", "oldest", "evicted", "newest"}[(grid/12)%4]
+			quietResume = extra == 0
+		case gc && extra == 0 && g.r.Bool():
+			// resumed right after the collection, before anything else is stored
+			forced = rng.Pick(g.r, []string{"newest", "newest", "oldest", "evicted"})
+			quietResume = true
+		}
 	}
 	const topic = 1
 	// the "before" phase: one thread, sequential; ids = the IDs of the messages the replayer stored
@@ -926,14 +1242,11 @@ func (g *jgen) tplResume(maxSubs int) (*jScenario, string, string) {
 	if s.kind == 3 {
 		// two clock jumps: +600 s right after the m-th accepted Put, +500 s right after the (m+k)-th (TTL 1000 s): from
 		// then on exactly the first m events are expired; the next Put collects them (the ring's head moves, no shrink while
-		// k > len/4), and the following Puts may wrap a ring that is not full.  cap encodes m*100+k.
-		m, k := 1+g.r.Intn(2), 2+g.r.Intn(2)
-		if len(ids) < m+k+1 {
-			s.kind = 2
-		} else {
-			s.cap = uint64(m*100 + k)
-			buffered = ids[m:]
-		}
+		// k > len/4), and the following Puts may wrap a ring that is not full.  cap encodes m*100+k.  With s.gc the
+		// application's own GC() follows the second jump at once (see expiry): nothing else need be stored before the
+		// resuming Subscribe.
+		s.cap = uint64(expM*100 + expK)
+		buffered = ids[expM:]
 	}
 	// bystanders registered from the start, then the resuming subscriber
 	for i, n := 0, g.r.Intn(maxSubs-1); i < n; i++ {
@@ -1027,7 +1340,11 @@ func (g *jgen) tplResume(maxSubs int) (*jScenario, string, string) {
 		if nbefore > 0 {
 			afterBefore = jEv(15, nbefore-1)
 		}
-		switch g.r.Intn(5) {
+		tcase := g.r.Intn(5)
+		if quietResume {
+			tcase = rng.Pick(g.r, []int{1, 4}) // nothing is stored between the collection and the Replay
+		}
+		switch tcase {
 		case 0:
 			timing += "+racing"
 			pt.start = afterBefore
@@ -1073,6 +1390,9 @@ func (g *jgen) tplResume(maxSubs int) (*jScenario, string, string) {
 	mode := "manual"
 	if auto {
 		mode = "auto"
+	}
+	if s.gc != 0 {
+		mode += "+GC()"
 	}
 	g.c.Count("replay:replayer:" + []string{"", "finite", "valid", "valid-expiring"}[s.kind] + "/" + mode)
 	if !auto && present == "newest" && len(ids) > 0 && (s.kind == 1 && len(ids)%capEff == 0 || s.kind == 2 && (len(ids) == 4 || len(ids) == 8 || len(ids) == 16)) {
@@ -1144,13 +1464,17 @@ func (g *jgen) tplReplayRandom(maxSubs int) *jScenario {
 
 func genJoeReplay(c *Ctx) {
 	g := &jgen{c: c, r: c.R}
-	mult, maxSubs := 2, 4 // quick: 520 scenarios, about 4 s
+	mult, maxSubs := 2, 4 // quick: 640 scenarios, about 5 s
 	if c.Thorough {
-		mult, maxSubs = 20, 8 // thorough: 5200 scenarios, about 70 s
+		mult, maxSubs = 20, 8 // thorough: 6400 scenarios, about 85 s
 	}
 	for n := 0; n < 200*mult; n++ {
-		s, _, _ := g.tplResume(maxSubs)
+		s, _, _ := g.tplResume(maxSubs, -1)
 		g.emit("joe_replay", "resume", s)
+	}
+	for n := 0; n < 60*mult; n++ {
+		s, _, _ := g.tplResume(maxSubs, n)
+		g.emit("joe_replay", "resume-after-expiry-and-GC", s)
 	}
 	for n := 0; n < 60*mult; n++ {
 		g.emit("joe_replay", "random", g.tplReplayRandom(maxSubs))
